@@ -366,7 +366,44 @@ def check_tcoords(o):
     return bad
 
 
-CHECKS = {"vec": check_vec, "alvec": check_alvec, "inv3": check_inv3, "rot2": check_rot2, "rot3": check_rot3,
+def check_decompose(o):
+    from functools import reduce
+
+    import menpo.transform as mt
+
+    bad = []
+    c = o["case"]
+    d = c["d"]
+    M = L.mat(c["M"])
+    t = _obj(c["cls"], d, c["M"])
+    h0 = t.h_matrix.copy()
+    parts = t.decompose()
+    if len(parts) != o["n_parts"]:
+        return [("decompose returns %d factors, expected %d" % (len(parts), o["n_parts"]), {}, None)]
+    rec = reduce(lambda a, b: a.compose_before(b), parts)
+    if not L.close(rec.h_matrix, M, 1e-9):
+        bad.append(("the decomposition does not recompose to the transform", {"got": rec.h_matrix, "want": M}, None))
+    pts = np.array([[1.0, 0, 2][:d], [0.0, 1, -1][:d], [2.0, 3, 1][:d]])
+    seq = pts
+    for p in parts:
+        seq = p.apply(seq)
+    if not L.close(seq, t.apply(pts), 1e-9):
+        bad.append(("applying the factors in order differs from applying the transform", {}, None))
+    if o["discrete"]:
+        if type(parts[0]) is not type(t) or np.shares_memory(parts[0].h_matrix, t.h_matrix):
+            bad.append(("a discrete transform does not decompose into an independent copy of itself", {}, None))
+    else:
+        names = [type(p).__name__ for p in parts]
+        if names[0] != "Rotation" or names[2] != "Rotation" or names[3] != "Translation" or names[1] not in ("UniformScale", "NonUniformScale"):
+            bad.append(("decomposition is not rotation, scale, rotation, translation", {"got": names}, None))
+        elif not L.close(parts[3].h_matrix[:d, d], M[:d, d], 1e-12):
+            bad.append(("translation factor is not the translation component", {}, None))
+    if not np.array_equal(t.h_matrix, h0):
+        bad.append(("decompose modified the transform", {}, None))
+    return bad
+
+
+CHECKS = {"decompose": check_decompose, "vec": check_vec, "alvec": check_alvec, "inv3": check_inv3, "rot2": check_rot2, "rot3": check_rot3,
           "quat": check_quat, "about": check_about, "scalefac": check_scalefac, "tcoords": check_tcoords}
 
 
